@@ -674,12 +674,25 @@ func mutationSequences(nseq int, base string) {
 					name = "d2"
 				}
 				perm := uint32(0o700 | rng.Intn(0o100))
-				f, e9 := t.clnt.FCreate(filepath.Join(dir, name), perm|go9p.DMDIR, go9p.OREAD)
+				// a directory can only be opened for reading: any other open mode is refused before anything is created
+				mode := uint8([]int{0, 0, 0, 16, 1, 19, 64}[rng.Intn(7)])
+				f, e9 := t.clnt.FCreate(filepath.Join(dir, name), perm|go9p.DMDIR, mode)
 				if e9 == nil {
 					_ = f.Close()
 				}
-				eT := os.Mkdir(filepath.Join(b, dir, name), os.FileMode(perm&0o777))
-				step("mkdir", hxs(filepath.Join(dir, name)), e9, eT)
+				var eT error
+				if mode != go9p.OREAD {
+					eT = syscall.EPERM
+					if st, e := os.Stat(filepath.Join(b, dir)); e != nil || !st.IsDir() {
+						eT = e9 // whatever the reason: nothing may be created
+						if eT == nil {
+							eT = syscall.ENOENT
+						}
+					}
+				} else {
+					eT = os.Mkdir(filepath.Join(b, dir, name), os.FileMode(perm&0o777))
+				}
+				step("mkdir", fmt.Sprintf("%s/m%d", hxs(filepath.Join(dir, name)), mode), e9, eT)
 			case 2: // symlink (9P2000.u)
 				if !dotu {
 					continue
@@ -728,17 +741,29 @@ func mutationSequences(nseq int, base string) {
 				if rng.Intn(3) == 0 {
 					to = "f1" // occupied
 				}
+				// a name starting with '/' is relative to the exported root, any other to the file's directory
+				dest := filepath.Join(filepath.Dir(p), to)
+				if rng.Intn(3) == 0 {
+					dest = to
+					to = "/" + to
+				}
 				d := go9p.Dir{Name: to, Mode: 0xFFFFFFFF, Length: 0xFFFFFFFFFFFFFFFF, Mtime: 0xFFFFFFFF, Atime: 0xFFFFFFFF, Uidnum: go9p.NOUID, Gidnum: go9p.NOUID}
 				nfid, e9 := t.clnt.FWalk(p)
 				if e9 == nil {
 					e9 = t.clnt.Wstat(nfid, &d)
+				}
+				eT := syscall.Rename(filepath.Join(b, p), filepath.Join(b, dest)) // rename(2), as Ufs calls it
+				step("rename", hxs(p+"=>"+to), e9, eT)
+				// the fid follows the object: another change through the same fid lands on the renamed file
+				if nfid != nil {
+					if st, e := os.Lstat(filepath.Join(b, dest)); e9 == nil && eT == nil && e == nil && st.Mode().IsRegular() {
+						d2 := go9p.Dir{Mode: 0xFFFFFFFF, Length: uint64(rng.Intn(9)), Mtime: 0xFFFFFFFF, Atime: 0xFFFFFFFF, Uidnum: go9p.NOUID, Gidnum: go9p.NOUID}
+						e92 := t.clnt.Wstat(nfid, &d2)
+						eT2 := os.Truncate(filepath.Join(b, dest), int64(d2.Length))
+						step("wstat-after-rename", hxs(dest), e92, eT2)
+					}
 					_ = t.clnt.Clunk(nfid)
 				}
-				eT := syscall.Rename(filepath.Join(b, p), filepath.Join(b, filepath.Dir(p), to)) // rename(2), as Ufs calls it
-				if _, e := os.Lstat(filepath.Join(b, p)); e != nil && eT == nil {
-					// renamed
-				}
-				step("rename", hxs(p+"=>"+to), e9, eT)
 			case 6: // truncate / chmod
 				p := []string{"f1", "d1/f2"}[rng.Intn(2)]
 				d := go9p.Dir{Mode: 0xFFFFFFFF, Length: 0xFFFFFFFFFFFFFFFF, Mtime: 0xFFFFFFFF, Atime: 0xFFFFFFFF, Uidnum: go9p.NOUID, Gidnum: go9p.NOUID}
